@@ -559,7 +559,11 @@ def collapse_one(
         except KeyError:
             LOGGER.info('No output {},{} in {}', out.inst_out, out.output, inst.filename)
             continue
-        id_to_ent[ent_id].add_out(Output.combine(prox_out, out))
+        try:
+            inner_ent = id_to_ent[ent_id]
+        except KeyError:
+            continue  # The entity was hidden, so it was not copied over.
+        inner_ent.add_out(Output.combine(prox_out, out))
 
 
 def collapse_all(
